@@ -897,8 +897,9 @@ class _PropertyGrid(_Grid):
         mask = np.zeros((self.width, self.height), dtype=bool)
 
         # Convert the neighborhood list to a NumPy array and use advanced indexing
-        coords = np.array(neighborhood)
-        mask[coords[:, 0], coords[:, 1]] = True
+        if len(neighborhood) > 0:
+            coords = np.array(neighborhood)
+            mask[coords[:, 0], coords[:, 1]] = True
         return mask
 
     def select_cells(
